@@ -204,6 +204,18 @@ const RIP_PROBES: [&str; 14] = [
     "!|Thello|", "!|X0101|", "!|I0K0K005A0A|", "!|e|E|*|",
 ];
 
+/// scenes with obstacles (drawn in colour 15): a box, nested boxes, a circle, crossing lines, a polygon, text, a box touching the border
+const RIP_SCENES: [&str; 7] = [
+    "c0F|R2S2S5K5K", "c0F|R1010C0A0|R2020B090|R30309080", "c0F|C8O4O2S", "c0F|L0000HR9P|L00009PHR|L8O00009P", "c0F|P0450105010A08020A0", "c0F|@2020fill around text", "c0F|R0000HR9P|R00002020",
+];
+const IGS_SCENES: [&str; 5] = ["C1,3:B50,50,150,120,0:", "C1,3:B10,10,300,190,0:B60,60,200,120,0:", "C1,2:O160,100,60:", "C1,2:L0,0,319,199:L0,199,319,0:", "C1,3:W40,80,fill around text@"];
+
+/// a two digit base 36 number
+fn mega(v: i32) -> String {
+    let d = |x: i32| char::from_digit(x as u32, 36).unwrap().to_ascii_uppercase();
+    format!("{}{}", d((v / 36) % 36), d(v % 36))
+}
+
 // ---------------------------------------------------------------- parameter strings
 
 /// all strings of length `len` over `digits`
@@ -319,6 +331,10 @@ enum Job {
     IgsProbe { cmd: usize, k: usize },
     /// RIP: a command with a parameter string followed by every well-formed drawing probe
     RipProbe { cmd: usize, len: usize },
+    /// RIP: a continuation backslash at every position of the parameter string (followed by a line break or directly by the next character)
+    RipContinuation { cmd: usize },
+    /// flood fills from a grid of start points over scenes with obstacles, every fill style / border colour (RIP and IGS)
+    Fill { emu: Emu, scene: usize },
 }
 
 struct Gfx {
@@ -372,6 +388,15 @@ fn build(_prop: &str, tier: &str) -> Gfx {
         for len in 0..=24usize {
             jobs.push(Job::RipProbe { cmd, len });
         }
+    }
+    for cmd in 0..rip_cmds.len() {
+        jobs.push(Job::RipContinuation { cmd });
+    }
+    for scene in 0..RIP_SCENES.len() {
+        jobs.push(Job::Fill { emu: Emu::Rip, scene });
+    }
+    for scene in 0..IGS_SCENES.len() {
+        jobs.push(Job::Fill { emu: Emu::Igs, scene });
     }
     jobs.push(Job::Text { emu: Emu::Rip });
     jobs.push(Job::Text { emu: Emu::Igs });
@@ -634,6 +659,55 @@ impl Engine for Gfx {
                     }
                 }
             }
+            Job::RipContinuation { cmd } => {
+                let c = self.rip_cmds[cmd].clone();
+                let key = format!("rip {} with a continuation", show(c.as_bytes()));
+                ctx.count("nontrivial", 1);
+                for len in 0..=24usize {
+                    for d in [b'1', b'0'] {
+                        for pos in 0..=len {
+                            for cont in ["\\", "\\\n", "\\\r\n"] {
+                                let mut p = vec![d; len];
+                                let tail = p.split_off(pos);
+                                let mut s = Gfx::rip_stream(&c, &p, cont, "");
+                                s.extend(tail);
+                                // the parser has to be in a sane state for what follows
+                                s.extend(b"|L00000A0A|c02\n!|@0505ok|\nplain text\n");
+                                self.run_stream(Emu::Rip, "initial state", b"", &s, &key, ctx);
+                            }
+                        }
+                    }
+                }
+            }
+            Job::Fill { emu, scene } => {
+                ctx.count("nontrivial", 1);
+                if emu == Emu::Rip {
+                    let key = "rip flood fill in a scene".to_string();
+                    // fill colour / style set-ups: solid colours, a pattern style, a user pattern, colour 0
+                    for style in ["S010F", "S0102", "S0A04", "S0000", "s0F0F0F0F0F0F0F0F0C", "S0100"] {
+                        for border in ["0F", "00", "02"] {
+                            for gx in 0..8 {
+                                for gy in 0..6 {
+                                    let (x, y) = (gx * 85 + 3, gy * 62 + 3);
+                                    let s = format!("!|{}|{style}|F{}{}{border}|\n", RIP_SCENES[scene], mega(x), mega(y));
+                                    self.run_stream(Emu::Rip, "initial state", b"", s.as_bytes(), &key, ctx);
+                                }
+                            }
+                        }
+                    }
+                } else {
+                    let key = "igs flood fill in a scene".to_string();
+                    for colour in ["C2,1:", "C2,0:", "C2,15:A2,3,1:", "A3,2,0:C2,2:"] {
+                        for gx in 0..8 {
+                            for gy in 0..6 {
+                                let (x, y) = (gx * 42 + 2, gy * 34 + 2);
+                                let s = format!("G#{}{colour}F{x},{y}:\n", IGS_SCENES[scene]);
+                                self.run_stream(Emu::Igs, "initial state", b"", s.as_bytes(), &key, ctx);
+                            }
+                        }
+                    }
+                }
+            }
             Job::Text { emu } => {
                 ctx.count("nontrivial", 1);
                 let key = format!("{} text", if emu == Emu::Rip { "rip" } else { "igs" });
@@ -659,6 +733,8 @@ impl Engine for Gfx {
             Job::Text { emu } => format!("{emu:?} text"),
             Job::IgsProbe { cmd, .. } => format!("igs {} then a drawing command", self.igs_cmds[*cmd]),
             Job::RipProbe { cmd, .. } => format!("rip {} then a drawing command", show(self.rip_cmds[*cmd].as_bytes())),
+            Job::RipContinuation { cmd } => format!("rip {} with a continuation", show(self.rip_cmds[*cmd].as_bytes())),
+            Job::Fill { emu, .. } => format!("{} flood fill in a scene", if *emu == Emu::Rip { "rip" } else { "igs" }),
         };
         json!({"engine": "gfx", "idx": idx, "job": format!("{j:?}"), "key": key})
     }
